@@ -141,7 +141,7 @@ fn parse_flags(args: &[String]) -> BTreeMap<String, String> {
 }
 
 /// hang watchdog: if one step takes longer than `secs`, report and exit with status 3
-fn start_watchdog(progress: Arc<AtomicU64>, secs: u64, oracle_out: Option<String>) {
+fn start_watchdog(progress: Arc<AtomicU64>, secs: u64, oracle_out: Option<String>, cur_case: Arc<std::sync::Mutex<String>>) {
     std::thread::spawn(move || {
         let mut last = progress.load(Ordering::Relaxed);
         let mut stale = 0u64;
@@ -158,14 +158,17 @@ fn start_watchdog(progress: Arc<AtomicU64>, secs: u64, oracle_out: Option<String
                 last = now;
             }
             if stale >= secs * 2 {
-                println!("HANG");
-                let _ = std::io::stdout().flush();
+                // (not on stdout: the main thread holds its lock while it is stuck in the step, so a
+                // `println!` here would block for ever and the watchdog would never exit)
+                eprintln!("@HANG step {} did not finish within {} s", now, secs);
                 if let Some(p) = &oracle_out {
                     if let Ok(mut f) = std::fs::OpenOptions::new().create(true).append(true).open(p) {
                         let _ = writeln!(
                             f,
-                            "{{\"line\":{},\"case\":\"?\",\"sig\":\"hang\",\"msg\":\"step did not finish within {} s\"}}",
-                            now, secs
+                            "{{\"line\":{},\"case\":{:?},\"sig\":\"hang\",\"msg\":\"step did not finish within {} s\"}}",
+                            now,
+                            cur_case.lock().map(|c| c.clone()).unwrap_or_default(),
+                            secs
                         );
                     }
                 }
@@ -207,7 +210,8 @@ pub fn harness_main(
             }
             let progress = Arc::new(AtomicU64::new(0));
             let hang_secs: u64 = flags.get("hang-secs").and_then(|s| s.parse().ok()).unwrap_or(60);
-            start_watchdog(progress.clone(), hang_secs, oracle_out.clone());
+            let cur_case = Arc::new(std::sync::Mutex::new(String::new()));
+            start_watchdog(progress.clone(), hang_secs, oracle_out.clone(), cur_case.clone());
             let mut sc = make(&flags);
             let mut ctx = Ctx {
                 line_no: 0,
@@ -231,6 +235,9 @@ pub fn harness_main(
                 }
                 if l.starts_with("case") {
                     ctx.case = l.to_string();
+                    if let Ok(mut c) = cur_case.lock() {
+                        *c = l.to_string();
+                    }
                     eprintln!("@{}", l);
                     dead = false;
                     match catch_unwind(AssertUnwindSafe(|| sc.reset())) {
